@@ -13,5 +13,37 @@ def glue_ob(Ob, prefix, fsi, dur, tier, maxout=1500, budget=900):
                      'opus_packet_pad, opus_repacketizer_init/_cat/_out_range_impl: contract stubs (C07)', 'celt_encoder_ctl: CELT_GET_MODE only'],
               bounds='Fs=%d, %s ms frames (case selectors); any encoder state satisfying the invariant (channels, application, forced channels/mode/bandwidth, bitrate incl. AUTO/MAX, VBR/CBR, FEC, loss, DTX, complexity, LFE, previous mode/bandwidth/channels); out_data_bytes 0..%d' % (FSN[fsi], DURN[dur], maxout))
 
+FRAME_REPLACE = ['hp_cutoff_REAL:stub_hp', 'dc_reject_REAL:stub_dc', 'gain_fade_REAL:stub_gain_fade', 'stereo_fade_REAL:stub_stereo_fade',
+                 'compute_frame_energy_REAL:stub_energy', 'celt_inner_prod_c_REAL:stub_inner']
+FDUR = ['2.5', '5', '10', '20', '40', '60']
+
+MODEN = {1000: 'silk', 1001: 'hybrid', 1002: 'celt'}
+
+def frame_ob(Ob, prefix, mode, fsi, dur, ch, ld, tier, maxb=40, budget=900):
+    return Ob('%s.%s.fs%d.%sms.ch%d%s.max%d' % (prefix, MODEN[mode], FSN[fsi], FDUR[dur], ch, '.lowdelay' if ld else '', maxb), 'C05_frame.c',
+              ['src/opus.c', 'src/opus_decoder.c', 'celt/entenc.c', 'celt/entcode.c', 'silk/lin2log.c', 'silk/log2lin.c'],
+              ['-DFSI=%d' % fsi, '-DDUR=%d' % dur, '-DCH=%d' % ch, '-DLD=%d' % ld, '-DMAXB=%d' % maxb, '-DMODESEL=%d' % mode], unwind=1, native_mem=True,
+              replace=FRAME_REPLACE, unwindset=['opus_encode_frame_native:%d' % (maxb + 2), 'compute_silk_rate_for_hybrid:9', 'gen_toc:9', 'ec_enc_normalize:6', 'ec_enc_done:8', 'ec_enc_carry_out:6',
+                                                'ec_enc_uint:3', 'ec_enc_bits:6', 'compute_redundancy_bytes:2', 'opus_packet_parse_impl:3'],
+              functions=['opus_encode_frame_native', 'decide_dtx_mode', 'gen_toc', 'compute_redundancy_bytes', 'compute_silk_rate_for_hybrid', 'ec_enc_bit_logp', 'ec_enc_uint', 'ec_enc_shrink', 'ec_enc_done'],
+              budget=budget, tier=tier, replay=False, mem_gb=24, mask=[r'arithmetic overflow on signed - in \(\(_this->buf \+'],
+              stubs=['silk_Encode: any SILK encoder (asserts its control structure with the real check_control_input; leaves the range coder in any consistent state, incl. over budget)',
+                     'celt_encode_with_ec: refuses < 2 bytes; touches first/last byte of the region handed down; any size 2..budget (VBR)',
+                     'celt_encoder_ctl: CELT_GET_MODE, OPUS_GET_FINAL_RANGE, logs the settings', 'hp_cutoff, dc_reject, gain_fade, stereo_fade: touch first/last sample of their regions',
+                     'celt_inner_prod, compute_frame_energy, exp: any value', 'opus_packet_pad: contract stub (C07-H3)'],
+              assumptions=['encoder pre-state: invariant of harness/C05_frame.c (C02_glue.c invariant + what opus_encode_native establishes before the call: decided mode/bandwidth pair, frame size legal for the mode, >= 3 bytes of budget - asserted at C02_glue.c frame-encoder stub)',
+                           'no surround energy mask (energy_masking == NULL)'],
+              bounds=MODEN[mode] + ' mode, Fs=%d, %s ms, %d channel(s)%s (case selectors); any bandwidth/settings/previous mode satisfying the invariant; budget 3..%d bytes; any redundancy/prefill/to_celt/silence request, any analysis result' % (FSN[fsi], FDUR[dur], ch, ', RESTRICTED_LOWDELAY' if ld else '', maxb))
+
+def msenc_ob(Ob, prefix, ns, nc, fsi, dur, tier, maxout=600, budget=900):
+    return Ob('%s.streams%d.coupled%d.fs%d.%sms.max%d' % (prefix, ns, nc, FSN[fsi], DURN[dur], maxout), 'C10_msenc.c', ['src/opus_multistream.c'], ['-DNS=%d' % ns, '-DNC=%d' % nc, '-DFSI=%d' % fsi, '-DDUR=%d' % dur, '-DMAXOUT=%d' % maxout],
+              unwind=1, replace=['surround_analysis_REAL:stub_surround'], replay=False, budget=budget, tier=tier, mem_gb=16,
+              unwindset=['opus_multistream_encode_native:22', 'rate_allocation:4', 'surround_rate_allocation:4', 'ambisonics_rate_allocation:4', 'validate_layout:7', 'validate_encoder_layout:4',
+                         'get_left_channel:7', 'get_right_channel:7', 'get_mono_channel:7', 'harness:7', 'ms_get_preemph_mem:4', 'ms_get_window_mem:4'],
+              functions=['opus_multistream_encode_native', 'rate_allocation', 'surround_rate_allocation', 'ambisonics_rate_allocation', 'get_left_channel', 'get_right_channel', 'get_mono_channel'],
+              stubs=['opus_encode_native: any single-frame packet of 1..budget bytes', 'opus_repacketizer_cat / _out_range_impl: contract stubs for one-frame packets (C07-H2)',
+                     'opus_encoder_ctl: getters + bitrate log', 'opus_encoder_get_size, frame_size_select (FRAMESIZE_ARG), surround_analysis, copy_channel_in: stand-ins'],
+              bounds='%d streams, %d coupled, Fs=%d, %s ms (case selectors); any valid mapping, any mapping type, bitrate AUTO/MAX/500..300000 per channel, VBR/CBR, max_data_bytes 0..%d' % (ns, nc, FSN[fsi], DURN[dur], maxout))
+
 def load_glue(VERIF):
     return None
